@@ -97,13 +97,15 @@ func (o WorkerGroupConf) CanContinueOnError(err error) bool {
 	case errors.Is(err, io.EOF):
 		return false
 	case ers.IsExpiredContext(err):
-		if o.IncludeContextExpirationErrors {
+		if o.IncludeContextExpirationErrors && !ers.Is(err, o.ExcludedErrors...) {
 			o.ErrorHandler(err)
 		}
 
 		return false
 	default:
-		o.ErrorHandler(err)
+		if !ers.Is(err, o.ExcludedErrors...) {
+			o.ErrorHandler(err)
+		}
 		return o.ContinueOnError
 	}
 }
